@@ -429,6 +429,14 @@ func (rc *RunCtx) processFindings() {
 			confirmed = true
 			rc.Validated--
 		}
+		if !confirmed && f.Kind == "race" {
+			// a candidate of the engine's detector that the native race detector did not report: listed, not an alarm
+			rc.mu.Lock()
+			l, _ := rc.Extra["unconfirmed_race_candidates"].([]string)
+			rc.Extra["unconfirmed_race_candidates"] = append(l, what)
+			rc.mu.Unlock()
+			continue
+		}
 		if !confirmed {
 			rc.inconclusive("ENGINE-MISMATCH: %s did not reproduce natively (%s) replay=%s", what, detail, path)
 			continue
